@@ -190,6 +190,78 @@ def make_body(max_stmts, second_pool):
     return body
 
 
+LITE_OPS = ['+', '<', '==', 'and', '*', 'not']
+LITE_CALLS = ['print', 'len', 'range']
+LITE_ASTS = ['Call', 'Name', 'For', 'Compare', 'BinOp']
+
+
+def _lite(code):
+    """(oracle, observed) counts for a small battery on the current submission"""
+    tree = ast.parse(code)
+    want, got = [], []
+    for sym in LITE_OPS:
+        want.append(len(op_nodes(tree, sym)))
+        got.append(len(find_operation(sym)))
+    for name in LITE_CALLS:
+        want.append(sum(1 for nd in ast.walk(tree) if isinstance(nd, ast.Call) and (
+            (isinstance(nd.func, ast.Name) and nd.func.id == name) or
+            (isinstance(nd.func, ast.Attribute) and nd.func.attr == name))))
+        got.append(len(find_function_calls(name)))
+        fired = bool(S.prevent_function_call(name))
+        want.append(want[-1] > 0)
+        got.append(fired)
+    for nm in LITE_ASTS:
+        want.append(sum(1 for nd in ast.walk(tree) if type(nd).__name__ == nm))
+        got.append(len(find_asts(nm)))
+    return want, got
+
+
+def body_histories(ctx):
+    """The checks refer to the student's submission, whatever other code was parsed in between."""
+    from pedal.cait.cait_api import parse_program, find_matches
+    from pedal.source import set_source
+    from pedal.source.source import restore_code
+    pool = 14
+    a = STM[ctx.choose(pool, 'submission')] + "\n" + STM[ctx.choose(pool, 'submission-2')] + "\n"
+    b = STM[ctx.choose(pool, 'other-code')] + "\n"
+    how = ('find_asts(student_code=)', 'find_matches(student_code=)', 'parse_program(code)', 'set_source+restore_code',
+           'nothing')[ctx.choose(5, 'interleaved')]
+    case = {'submission': a, 'other': b, 'interleaved': how}
+    ctx.observe(repr(case))
+    ctx.set_sample(case)
+    if how != 'nothing':
+        ctx.mark_nontrivial(repr(case))
+    cmds.clear_report()
+    cmds.contextualize_report(a)
+    ctx.step('battery on the submission')
+    want, got = _lite(a)
+    ctx.evaluated(len(want))
+    if want != got:
+        ctx.fail({'symptom': 'checks disagree with the tree', 'when': 'first'}, case=case, want=want, got=got)
+        return
+    ctx.step(how)
+    try:
+        if how.startswith('find_asts'):
+            find_asts('Call', student_code=b)
+        elif how.startswith('find_matches'):
+            find_matches('___', student_code=b)
+        elif how.startswith('parse_program'):
+            parse_program(b)
+        elif how.startswith('set_source'):
+            set_source(b)
+            wb, gb = _lite(b)
+            if wb != gb:
+                ctx.fail({'symptom': 'checks disagree with the tree', 'when': 'after set_source'}, case=case, want=wb, got=gb)
+            restore_code()
+    except Exception as e:
+        ctx.fail({'symptom': 'interleaved operation raised', 'exception': type(e).__name__}, case=case, message=str(e)[:150])
+        return
+    ctx.step('battery on the submission again')
+    want2, got2 = _lite(a)
+    if want2 != got2:
+        ctx.fail({'symptom': 'checks no longer refer to the submission', 'after': how}, case=case, want=want2, got=got2)
+
+
 def bounds(tier):
     return {'statements': len(STM), 'max_statements': 2 if tier == 'quick' else 3,
             'later_statement_pool': 24 if tier == 'quick' else len(STM),
@@ -200,7 +272,11 @@ def bounds(tier):
 def phases(tier):
     if tier == 'quick':
         return [Phase('programs', make_body(2, 24), setup=_setup, chunk=60,
-                      describe='all programs of <=2 statements (second statement from the first 24)')]
-    return [Phase('programs', make_body(2, len(STM)), setup=_setup, chunk=60, describe='all programs of <=2 statements'),
+                      describe='all programs of <=2 statements (second statement from the first 24)'),
+                Phase('histories', body_histories, setup=_setup, chunk=200,
+                      describe='battery on the submission, other code parsed explicitly / set_source+restore_code, battery again')]
+    return [Phase('histories', body_histories, setup=_setup, chunk=200,
+                  describe='battery on the submission, other code parsed explicitly / set_source+restore_code, battery again'),
+            Phase('programs', make_body(2, len(STM)), setup=_setup, chunk=60, describe='all programs of <=2 statements'),
             Phase('programs-3', make_body(3, 14), setup=_setup, chunk=60,
                   describe='programs of 3 statements (2nd/3rd from the first 14)')]
